@@ -178,6 +178,11 @@ def property_fails_on(op, impl):
             if not (400 <= status < 500) or cfgw != "0":
                 return "%s /config/%s from outside the allowed network answered %d (config written: %s)" % (
                     m, segs[-1], status, cfgw)
+    if reqs.startswith("isadmin="):
+        # the page's IS_ADMIN flag is the admin check, nothing else (it only hides controls; the API checks again)
+        if reqs != "isadmin=" + ("true" if is_admin(f) else "false"):
+            return "GET /%s renders IS_ADMIN = %s for a request that %s an admin identity" % (
+                "/".join(segs), reqs[8:], "carries" if is_admin(f) else "does not carry")
     if m == "GET" and under_api and status == 403:
         return "read-only view /%s answered 403" % "/".join(segs)
     if m == "GET" and not (segs and segs[0] == "config") and ("P:" in reqs or notes != "-" or cfgw != "0"):
@@ -555,6 +560,7 @@ def run(ctx):
                 segs0 = parse_op(o)["segs"]
                 if segs0 and segs0[0] == "config":
                     continue
+                i = re.sub(r"isadmin=(true|false)", "isadmin=?", i)   # the page flag is *meant* to follow the identity
                 if rest in seen_view and seen_view[rest][0] != i:
                     ctx.violation("view-identity:/" + "/".join(pattern_of(segs0)),
                                   "GET /%s is answered %r for identity [%s] and %r for identity [%s]: a read-only view depends "
